@@ -676,3 +676,24 @@ Print Assumptions C17_scratch_const_div.
 Theorem C17_tie_sqr_requirement : forall n : Z, gen_sqr_requirement n = sqr_req n.
 Proof. exact tie_sqr_requirement. Qed.
 Print Assumptions C17_tie_sqr_requirement.
+
+(** ---- coordinator follow-up (seeded changes C17_E, C17_F) *)
+(** Buffer::pop_zeros as the loop it is - every ptr::read guarded to lie inside the block, the length decrement guarded against
+    underflow, the `if self.len == 0 { break; }` REGENERATED from buffer.rs -: for EVERY word list it ends without a failed guard and
+    returns the normalized words.  Without the break the scan of an all-zero buffer reads index -1 (guard failure; proof breaks). *)
+Theorem C17_pop_zeros_in_bounds : forall (ws : list Z) (m : mem), pop_zeros_asis ws m = Ok (strip ws, m).
+Proof. exact pop_zeros_asis_ok. Qed.
+Print Assumptions C17_pop_zeros_in_bounds.
+
+Theorem C17_from_buffer_guarded : forall (w M : Z) (b : buffer) (m : mem), from_buffer_g w M b m = from_buffer w M b m.
+Proof. exact from_buffer_g_ok. Qed.
+Print Assumptions C17_from_buffer_guarded.
+
+(** a growth the allocator refuses (realloc returns null; the Buffer still owns its block): the panic unwinds and the block is freed
+    exactly once.  Whether the failure path releases the block itself is REGENERATED from Buffer::reallocate_raw: if it did, the
+    Drop of the Buffer would free it a second time (guard 10) and this theorem would not hold. *)
+Theorem C17_realloc_failure_balanced : forall w M : Z, 0 < w -> 8 <= M ->
+  forall (a : targ) (n : Z) (F : list (Z * Z)) (m : mem) (Q : outcome -> mem -> Prop),
+  Own (tblks a ++ F) m -> TargInv M a -> is_ref a = false -> 0 <= n -> OQ M F Q -> safe (set_bit_fail w M a n) m Q.
+Proof. exact wp_set_bit_fail. Qed.
+Print Assumptions C17_realloc_failure_balanced.
